@@ -128,7 +128,7 @@ pub fn logical(g: Gen) -> impl Strategy<Value = Logical> {
         6 => 2usize..=20.min(g.max_tiles.max(2)),
         2 => 20usize..=g.max_tiles.max(21),
     ];
-    (n, content::pool(12, g.allow_big, g.allow_adv), json::object(g.full_floats), settings::settings(settings::internal_any()), any::<u32>())
+    (n, (content::pool(12, g.allow_big, g.allow_adv), any::<u8>()).prop_map(|(p, f)| content::with_mid_pair(p, f)), json::object(g.full_floats), settings::settings(settings::internal_any()), any::<u32>())
         .prop_flat_map(move |(n, pool, meta, settings, order_seed)| {
             let blocks = (n / 3).max(1);
             (ids::id_set(n.max(1)).prop_map(move |v| v), proptest::collection::vec(selector(), n.max(1)), Just((pool, meta, settings, order_seed, n, blocks)))
